@@ -153,10 +153,14 @@ func TestVerif_Admission(t *testing.T) {
 			if sc.Route == "anthropic" {
 				id = fmt.Sprintf("anth%d", sn)
 			}
-			target, hdrs, _ := verifRequestFor(sc.Route, id, "m1")
-			body := verifAdmBody(sc.Route, id, n)
+			method, route := "POST", sc.Route
+			if route == "provider_get" { // a body on a method that usually has none
+				method, route = "GET", "provider"
+			}
+			target, hdrs, _ := verifRequestFor(route, id, "m1")
+			body := verifAdmBody(route, id, n)
 			send := ms()
-			res := zzverif.Do(stk.addr, &zzverif.Req{Method: "POST", Target: target, Headers: hdrs, Body: body,
+			res := zzverif.Do(stk.addr, &zzverif.Req{Method: method, Target: target, Headers: hdrs, Body: body,
 				Chunked: sc.LenMode == "chunked", ChunkSz: 512, Timeout: 15 * time.Second})
 			st := res.Status
 			if res.NoResp {
